@@ -63,6 +63,28 @@ def expected_leaves(g, tasks, starts, started, log):
     return sorted(R)
 
 
+def _only_own_scope_cancelled(name, log):
+    """Every cancel request in the log targets this group's scope (no enclosing scope, no task
+    handle, no native Task.cancel())."""
+    seen = False
+    for e in log:
+        if e[2] == "envrun":
+            kind, _, target = e[3].partition(":")
+            if kind in ("ncancel", "hcancel") or kind.startswith("first"):
+                return False
+            if kind == "cancel":
+                if target != name:
+                    return False
+                seen = True
+        elif e[2] == "x" and e[5] == "cancel":
+            if e[6] != [name]:
+                return False
+            seen = True
+        elif e[2] == "se" and e[6] != float("inf"):
+            return False  # a deadline may cancel something else
+    return seen
+
+
 def check(program, ex):
     if ex.status != "ok":
         return [f"deadlock/livelock: execution status {ex.status} ({ex.detail})"]
@@ -90,6 +112,9 @@ def check(program, ex):
         else:
             if out[0] not in ("ok", "cancel"):
                 v.append(f"group {name}: nothing failed but the block raised {out}")
+            elif out[0] == "cancel" and _only_own_scope_cancelled(name, ex.log):
+                v.append(f"group {name}: nothing failed and only the group's own scope was "
+                         f"cancelled, but a cancellation ({out}) escaped from the block")
     # "the group's remaining tasks are cancelled": members of a cancelled group must be
     # interrupted at their checkpoints / while blocked
     ref = Ref(ex.log)
